@@ -36,6 +36,11 @@ CHECKS = {
          "Through the cfg-gated hook, Humphrey's frame encoder is compared byte-for-byte with a reference RFC 6455 §5.2 encoder over FIN x RSV x opcodes x mask x boundary and random payload lengths (to 70 KiB quick / 1 MiB thorough), and its decoder with a reference decoder: all 65 536 two-byte headers with nothing / truncated / complete remainders, every split point of short frames, sampled splits of long ones; truncation must give ReadError, reserved opcodes InvalidOpcode, and decode(encode(f)) = f with the payload unmasked. Truncated frames claiming up to 2^64-1 bytes run in a child process with an allocation counter: error, no abort, bounded allocation. Message::to_frame checked for text/binary at the boundary lengths.",
          "Trusts the reference codec in common/ws.rs and the scripted reader. Frame.payload is taken to be the on-the-wire payload (the encoder does not apply the mask), as the code documents.",
          "DESIGN.md §5 C10"),
+ "C03": ("exploration",
+         "structure-aware mutation + bounded-exhaustive short strings + seed-prefix enumeration + random bytes, executed in isolated worker processes with an allocation-counting allocator, RLIMIT_AS and a CPU watchdog (crash / abort / hang / memory oracle)",
+         "For each of the seven parser entry points (HTTP request, HTTP response, WebSocket frame via hook, WebSocket message blocking and non-blocking over a loopback socket pair, JSON, config parse_conf+from_tree) the check feeds every prefix of every seed message, structure-aware mutants (length fields -> boundary/huge values, separators deleted/doubled, multi-byte and invalid UTF-8 at every position, frame length bytes patched), deep nesting, all strings of <=4 (quick) / <=5 (thorough) symbols over a protocol alphabet, random alphabet strings and random bytes, all-at-once and byte-by-byte. Oracle per call: returns Ok/Err (no panic, no process death, no stack overflow on a 2 MiB / 8 MiB stack), terminates within 10 s CPU, and peak + largest single allocation <= 1024 x input + 64 KiB.",
+         "Trusts the worker protocol (death attributed to the running case and confirmed in a fresh worker), the counting allocator, and the memory constant (set from the honest worst case ~450x for JSON; a claimed-length allocation below ~1 MiB would not be flagged). Config inputs with `include` or device paths are skipped and counted.",
+         "DESIGN.md §5 C03"),
 }
 
 NOT_YET = "check not built yet (work in progress; see DESIGN.md §5 for the intended design)"
